@@ -159,3 +159,14 @@ Definition boundary_crashes (evs : list nev) : bool := forallb ev_fuse_none evs.
 Definition no_crash (evs : list nev) : bool :=
   forallb ev_fuse_none evs && forallb (fun e => negb (ev_is_crash e)) evs
   && nodup_nat (flat_map ev_restart_of evs).
+
+(* ------------------------------------------------------------------ counting votes in the soup *)
+
+(* validator slot k has a vote (round r, type t, decision d) in the list *)
+Definition has_vote_of (sp : list vote) (k : nat) (r : Z) (t : vtype) (d : option N) : bool :=
+  existsb (fun v => Z.eqb (v_from v) (Z.of_nat k) && Z.eqb (v_round v) r
+                    && vtype_eqb (v_type v) t && dec_eqb (v_dec v) d) sp.
+
+(* number of validator slots below n that precommitted block b in round r *)
+Definition count_precommits (sp : list vote) (n : nat) (r : Z) (b : N) : nat :=
+  length (filter (fun k => has_vote_of sp k r Precommit (Some b)) (seq 0 n)).
